@@ -15,7 +15,6 @@ package c12
 import (
 	"encoding/json"
 	"fmt"
-	"net/http/httptest"
 	"os"
 	"strings"
 	"testing"
@@ -67,6 +66,7 @@ type CaseH struct {
 	Start string `json:"start"`
 	Cfg   Cfg    `json:"cfg"` // configuration the listener is started with
 	Ops   []Op   `json:"ops"`
+	Page  string `json:"page,omitempty"` // as in (a): "present" = the working directory has the decoy page
 }
 
 // ---------------------------------------------------------------------------- generator
@@ -317,6 +317,20 @@ func genH(t *rapid.T) CaseH {
 		}
 		scaleReqs(t, ps, scale)
 	}
+	// about one history in 4: ONE request of the history is served while one dependency fails
+	// (fault_test.go); the history continues with the fault lifted
+	if isFaultCase(t) {
+		var ps []*Req
+		for i := range c.Ops {
+			if c.Ops[i].Req != nil {
+				ps = append(ps, c.Ops[i].Req)
+			}
+		}
+		if len(ps) > 0 {
+			attachFault(t, c.Cfg, ps)
+			c.Page = "present"
+		}
+	}
 	return c
 }
 
@@ -426,10 +440,12 @@ func runH(c CaseH, report func(*core.Violation)) {
 	cur := c.Cfg
 	edits, served := 0, 0
 	lastEdit := ""
+	if c.Page == "present" {
+		defer enterPageRoot()()
+	}
 	serveOne := func(r Req, i int, agentID uint32, aim string, pv *verdict, note0 lazyStr) {
-		w := httptest.NewRecorder()
 		nA, nE := len(ts.Agents.Agents), nEvents()
-		h.GinEngine.ServeHTTP(w, buildRequest(r, agentID))
+		w, r, fx := deliver(h.GinEngine, r, agentID, c.Page == "present")
 		newSessions := ts.Agents.Agents[nA:]
 		admitted := len(newSessions) > 0
 		ev := "[]"
@@ -448,7 +464,7 @@ func runH(c CaseH, report func(*core.Violation)) {
 			}
 			return s
 		})
-		assess(cur, r, i, agentID, w, admitted, newSessions, ev, "hist|", post, pv, note, report)
+		assess(cur, r, i, agentID, w, admitted, newSessions, ev, "hist|", post, pv, note, report, fx)
 		served++
 	}
 	bulkID := uint32(0x0C200000)
@@ -581,6 +597,14 @@ func classifyH(c CaseH) core.Class {
 		}
 		cl.Labels = append(cl.Labels, "req:"+phase+":"+kind, "aim:"+op.Aim)
 		cl.Labels = append(cl.Labels, unicodeReqLabels(*op.Req, v)...)
+		if op.Req.Fault != nil {
+			cl.Labels = append(cl.Labels, faultLabels(cur, *op.Req, i, len(c.Ops))...)
+			if edits > 0 {
+				cl.Labels = append(cl.Labels, "fault-step:after-an-edit")
+			} else {
+				cl.Labels = append(cl.Labels, "fault-step:before-any-edit")
+			}
+		}
 		if edits > 0 && served > 0 {
 			// the interesting shape: served something, edited, and now a request whose fate the edit decides
 			if op.Aim == "previous" || v.MustAdmit {
@@ -640,14 +664,18 @@ func classifyH(c CaseH) core.Class {
 		cl.Labels = append(cl.Labels, fmt.Sprintf("post-with-xff-after-edit|trust-xff:%v", c.Cfg.BehindRedir))
 	}
 	cl.Fingerprint = fmt.Sprintf("%s|trust=%v|last=%s|%s", c.Start, c.Cfg.BehindRedir, strings.Split(last, "+")[0], fp)
+	if c.Page == "present" {
+		cl.Labels = append(cl.Labels, "decoy-page:present-in-working-directory")
+	}
 	noteScale("h", cl.Labels)
+	noteFaults("h", cl.Labels)
 	return cl
 }
 
 func TestC12h(t *testing.T) {
 	core.Run(t, core.Spec[CaseH]{
 		Property: "C12", Sub: "h",
-		Rule: "histories on one running listener of a real Teamserver whose profile has Demon.TrustXForwardedFor true or false (half each). The listener is started either by the operator's Listener.Add package through the real DispatchEvent (2/3) or by ts.ListenerStart with the configuration teamserver.go builds for a profile listener, response headers included (1/3). Then 0-3 requests and 1-3 rounds of {an operator Listener.Edit package (the dialog's whole form, Info keys and ', '-joined lists exactly as the client sends them) through the real DispatchEvent -> ts.ListenerEdit, 1-4 requests}. Edits change one or two of: URIs (empty the list, fill an empty one, change one element, add, remove one, replace all), user agent (set/unset/change), request headers (empty, fill, change a value, add, remove one; half of the filled / added lists use (a)'s header-NAME classes: entries named User-Agent, Host, Content-Length, Content-Type, Cookie, repeated names, case variants, trailing blank - so a User-Agent entry meets a UserAgent setting that an edit sets, changes or removes). Requests are generated as in (a) - including its Unicode classes (fold partner / confusable of a configured header value, user agent or URI; configured values with s, k, sigma, micro, composed letters) - around the configuration in force or (40% after an edit) around the previous one, carry X-Forwarded-For always when the profile trusts the redirector and in a third of the cases otherwise, and every one is judged by (a)'s reference judge against the configuration in force at that moment, the redirector flag being the profile's throughout: admitted <=> new entry in ts.Agents with 200 + registration reply + response headers + ExternalIP (X-Forwarded-For iff the profile trusts the redirector, else the peer); otherwise 404, no new agent, no new retained event. SCALE (about one history in 20; one count per history from the threshold-adjacent pool 63..8193 of (a)): requests served by the one listener instance - a bulk as in (a) (non-matching POSTs, matching requests, GETs and mixes; totals up to 8193, templates that may be admitted cut at 513 per bulk in the quick tier / 1025 thorough: an admitted request costs ~2 ms on the real Teamserver) placed before the warm-up, after it or after any round, optionally split in two parts with requests and edits in between (each part judged against the configuration then in force), every request judged; operator edits of the one listener (a cycle of 2-3 generated edit forms sent 63..129 times, quick tier; up to 513 thorough - an edit costs ~10 ms), followed by ordinary requests; configured headers / URIs / hosts up to 1025 entries through the operator's Add / Edit packages, configured header value size, headers per request and request header size up to 8193. Non-trivial: a request served, then an edit, then a request that satisfies the new configuration or was aimed at the old one; distinct = (start mode, profile flag, kind of the last edit, aim and verdict of the first such request)",
+		Rule: "histories on one running listener of a real Teamserver whose profile has Demon.TrustXForwardedFor true or false (half each). The listener is started either by the operator's Listener.Add package through the real DispatchEvent (2/3) or by ts.ListenerStart with the configuration teamserver.go builds for a profile listener, response headers included (1/3). Then 0-3 requests and 1-3 rounds of {an operator Listener.Edit package (the dialog's whole form, Info keys and ', '-joined lists exactly as the client sends them) through the real DispatchEvent -> ts.ListenerEdit, 1-4 requests}. Edits change one or two of: URIs (empty the list, fill an empty one, change one element, add, remove one, replace all), user agent (set/unset/change), request headers (empty, fill, change a value, add, remove one; half of the filled / added lists use (a)'s header-NAME classes: entries named User-Agent, Host, Content-Length, Content-Type, Cookie, repeated names, case variants, trailing blank - so a User-Agent entry meets a UserAgent setting that an edit sets, changes or removes). Requests are generated as in (a) - including its Unicode classes (fold partner / confusable of a configured header value, user agent or URI; configured values with s, k, sigma, micro, composed letters) - around the configuration in force or (40% after an edit) around the previous one, carry X-Forwarded-For always when the profile trusts the redirector and in a third of the cases otherwise, and every one is judged by (a)'s reference judge against the configuration in force at that moment, the redirector flag being the profile's throughout: admitted <=> new entry in ts.Agents with 200 + registration reply + response headers + ExternalIP (X-Forwarded-For iff the profile trusts the redirector, else the peer); otherwise 404, no new agent, no new retained event. SCALE (about one history in 20; one count per history from the threshold-adjacent pool 63..8193 of (a)): requests served by the one listener instance - a bulk as in (a) (non-matching POSTs, matching requests, GETs and mixes; totals up to 8193, templates that may be admitted cut at 513 per bulk in the quick tier / 1025 thorough: an admitted request costs ~2 ms on the real Teamserver) placed before the warm-up, after it or after any round, optionally split in two parts with requests and edits in between (each part judged against the configuration then in force), every request judged; operator edits of the one listener (a cycle of 2-3 generated edit forms sent 63..129 times, quick tier; up to 513 thorough - an edit costs ~10 ms), followed by ordinary requests; configured headers / URIs / hosts up to 1025 entries through the operator's Add / Edit packages, configured header value size, headers per request and request header size up to 8193. FAULT INJECTION (about one history in 4, as in (a)): ONE request of the history - before any edit or after one, mostly followed by further requests and edits - is served while one dependency fails (request body unreadable beyond k bytes: failing reader in-process, or over a real socket around the listener's engine Content-Length larger than sent then FIN / RST, chunked with a garbage chunk size, chunked cut by FIN, Content-Length smaller than sent; response writer failing after k bytes; decoy page missing / a directory / working directory elsewhere), then the fault is lifted; the history runs in a working directory that has the decoy page; the request is judged by (a)'s oracle for faulted steps against the configuration in force (complete body => as any request, incomplete => decoy or refused by the protocol with the response headers, no new agent, no new retained event), and every later request and edit must behave as if the fault had not happened. Non-trivial: a request served, then an edit, then a request that satisfies the new configuration or was aimed at the old one; distinct = (start mode, profile flag, kind of the last edit, aim and verdict of the first such request)",
 		Gen:  genH, Check: checkH, Classify: classifyH,
 		Assumptions: []string{
 			"operator packages are dispatched without a connected operator socket (replies to 'the user' and broadcasts are no-ops), as CreatePackage + EventAppend + DispatchEvent, which is what handleRequest does after authentication",
